@@ -2844,21 +2844,39 @@ func (dsc *dataStoreCommand) setMove(source, destination, memberName string) (ou
 		return
 	}
 
+	if dsk, destExists := dsc.getKeyObjectUnlocked(destination); destExists && dsk.getSet() == nil {
+		// the destination type is checked before the member is looked at
+		output.data = wrongTypeError
+		return
+	}
+
 	_, exists := ss.get(memberName)
 	if !exists {
 		output.data = respInt(0)
 		return
 	}
 
-	added, wrongType := dsc.setAddWorkerUnlocked(destination, []string{memberName}, SET_NOT_EXIST)
+	if source == destination {
+		// moving a member onto its own set changes nothing
+		output.data = respInt(1)
+		return
+	}
+
+	_, wrongType := dsc.setAddWorkerUnlocked(destination, []string{memberName}, SET_NOT_EXIST)
 	if wrongType {
 		output.data = wrongTypeError
 		return
 	}
 
 	ss.remove(memberName)
+	if ss.count == 0 {
+		// a set never exists empty
+		dsc.ds.data.remove(source)
+	}
+	dsc.setDirty()
 
-	output.data = respInt(added)
+	// the member was moved, whether or not the destination already had it
+	output.data = respInt(1)
 	return
 }
 
